@@ -86,3 +86,21 @@ pub(crate) fn copy_daisr(dst: &mut Board, src: &Board) {
 pub(crate) fn fan_rpm_of(b: &Board) -> usize {
     b.fan_rpm
 }
+
+// ---- cheap deterministic stand-ins for the float-heavy board operations (used ONLY by the C01/C15/C04
+// instruction triples via `#[kani::stub]`; the real functions carry their own contracts in C14).
+// The CPU never looks inside the board, it only forwards a byte to / from it, so the triples treat
+// these three operations as uninterpreted.
+#[cfg(kani)]
+pub(crate) fn stub_set_digital_output1(b: &mut Board, value: u8) {
+    b.digital_output1 = value;
+    b.dasr.insert(DASR::FAN);
+}
+#[cfg(kani)]
+pub(crate) fn stub_set_digital_output2(b: &mut Board, value: u8) {
+    b.digital_output2 = value;
+}
+#[cfg(kani)]
+pub(crate) fn stub_get_fan_period(b: &Board) -> u8 {
+    b.digital_output1 ^ 0xFF
+}
